@@ -112,7 +112,7 @@ func permuteKeepingLast(r *vf.RNG, m vf.AttrModel) []attribute.KeyValue {
 	vf.Shuffle(r, keys)
 	var out []attribute.KeyValue
 	for _, k := range keys {
-		out = append(out, attribute.KeyValue{Key: attribute.Key(k), Value: m[k]})
+		out = append(out, attribute.KeyValue{Key: attribute.Key(k), Value: rebuild(r, m[k])})
 	}
 	// insert superseded duplicates at positions before the last occurrence of their key
 	nd := r.Intn(4)
@@ -131,6 +131,65 @@ func permuteKeepingLast(r *vf.RNG, m vf.AttrModel) []attribute.KeyValue {
 	}
 	return out
 }
+
+// rebuild constructs the same typed value through another public constructor (the identity of a Set
+// must not depend on which constructor produced a value).
+func rebuild(r *vf.RNG, v attribute.Value) attribute.Value {
+	var out attribute.Value
+	switch v.Type() {
+	case attribute.BOOL:
+		out = attribute.Bool("k", v.AsBool()).Value
+	case attribute.INT64:
+		i := v.AsInt64()
+		switch r.Intn(3) {
+		case 0:
+			out = attribute.IntValue(int(i))
+		case 1:
+			out = attribute.Key("k").Int64(i).Value
+		default:
+			out = attribute.Int("k", int(i)).Value
+		}
+	case attribute.FLOAT64:
+		out = attribute.Key("k").Float64(v.AsFloat64()).Value
+	case attribute.STRING:
+		if r.Bool() {
+			out = attribute.Stringer("k", strer(v.AsString())).Value
+		} else {
+			out = attribute.Key("k").String(v.AsString()).Value
+		}
+	case attribute.BOOLSLICE:
+		out = attribute.BoolSlice("k", v.AsBoolSlice()).Value
+	case attribute.INT64SLICE:
+		is := v.AsInt64Slice()
+		if r.Bool() {
+			ints := make([]int, len(is))
+			for i := range is {
+				ints[i] = int(is[i])
+			}
+			if r.Bool() {
+				out = attribute.IntSliceValue(ints)
+			} else {
+				out = attribute.IntSlice("k", ints).Value
+			}
+		} else {
+			out = attribute.Key("k").Int64Slice(is).Value
+		}
+	case attribute.FLOAT64SLICE:
+		out = attribute.Float64Slice("k", v.AsFloat64Slice()).Value
+	case attribute.STRINGSLICE:
+		out = attribute.Key("k").StringSlice(v.AsStringSlice()).Value
+	default:
+		return v
+	}
+	if vf.Canon(out) != vf.Canon(v) {
+		panic("harness: rebuild changed the value")
+	}
+	return out
+}
+
+type strer string
+
+func (s strer) String() string { return string(s) }
 
 func checkSetAgainstModel(k *vf.Case, what string, s *attribute.Set, m vf.AttrModel) bool {
 	sl := s.ToSlice()
